@@ -11,7 +11,7 @@ from concurrent.futures import ThreadPoolExecutor
 
 VERIF = os.path.dirname(os.path.dirname(os.path.abspath(__file__)))
 REPO = os.environ.get("VERIF_REPO", "/repo")
-BUILD = os.path.join(VERIF, ".build")
+BUILD = os.environ.get("VERIF_BUILD") or os.path.join(VERIF, ".build")    # VERIF_BUILD: private build/work/evidence root of a seeded-change trial
 HARN = os.path.join(VERIF, "harness")
 
 GUARD = "MP_VERIF_HOOKS"
